@@ -802,6 +802,19 @@ func (e *Engine) resolveStructInvs() error {
 		for _, f := range si.Established {
 			allowed[f] = true
 		}
+		// every establishing function is verified (it must be under a non-trusted contract)
+		for _, f := range si.Established {
+			found := false
+			for k, con := range e.contracts {
+				fn := e.funcs[k]
+				if fn != nil && fn.Name() == f && fn.Pkg != nil && fn.Pkg.Pkg == si.Pkg && !con.Trusted {
+					found = true
+				}
+			}
+			if !found {
+				return fmt.Errorf("structinv %s: establishing function %s is not under a verified contract, so the invariant would never be proved", si.TypeName, f)
+			}
+		}
 		helper := map[string]bool{}
 		for _, f := range si.Helpers {
 			allowed[f] = true
